@@ -1,8 +1,12 @@
 import SlotVerif.Model.Extract
+import SlotVerif.Proofs.Dijkstra
 /-!
 # C06 — Extraction returns a cheapest term of the requested class
 
-`Extractor::new`'s heap loop is not modelled.  Proved: the **cost-table checker** — any table that
+`Extractor::new`'s heap loop **is modelled** (`Extract.loop` / `Extract.dijkstra`, session 6) and proved correct for every
+state with distinct class ids: `extractor_table_accepted`, `extractor_cost_is_min`, `extractor_total` below
+(`Proofs/Dijkstra.lean`: the invariant of Dijkstra's algorithm for a superior cost function, preserved by every turn of the
+loop; termination by the pair (classes without entry, queue length)).  Also proved: the **cost-table checker** — any table that
 `checkTable` accepts is a lower bound for the cost of *every* extraction tree of every live class
 (an extraction tree = a choice of one e-node per subterm, i.e. a term represented in the class), for
 the three cost functions of the runs.  Per run the Lean side computes a table by relaxation, checks
@@ -284,5 +288,39 @@ example : wfTree demo (.mk 1 0 [.mk 0 0 []]) = true ∧ treeCost .op demo (.mk 1
   constructor
   · simp [wfTree, wfKids, demo, Snap.cls, Snap.isAlive, Node.appOcc, Field.appOcc, XTree.root]
   · simp [treeCost, kidsCost, demo, Snap.cls, nodeCost, opWeight]
+
+/-! ### the heap loop of `Extractor::new` (model `Extract.dijkstra`) -/
+
+/-- the table computed by the cost-ordered work list is accepted by the checker — for **every** state -/
+theorem extractor_table_accepted (cf : CF) (s : Snap) (hd : DistinctIds s) :
+    checkTable cf s (dijkstra cf s) = true := dijkstra_accepted cf s hd
+
+/-- **the cost `Extractor::new` records for a class is the minimum over all terms represented in it**, and it is the
+cost of one of them -/
+theorem extractor_cost_is_min (cf : CF) (s : Snap) (hd : DistinctIds s) {c k : Nat}
+    (hg : (dijkstra cf s).get c = some k) :
+    (∃ T, wfTree s T = true ∧ T.root = c ∧ treeCost cf s T = k) ∧
+    (∀ T, wfTree s T = true → T.root = c → k ≤ treeCost cf s T) :=
+  table_is_min (dijkstra_accepted cf s hd) hg
+
+/-- **every class that contains a finite term gets an entry** (extraction succeeds for it) -/
+theorem extractor_total (cf : CF) (s : Snap) (hd : DistinctIds s) (T : XTree) (hT : wfTree s T = true) :
+    ∃ k, (dijkstra cf s).get T.root = some k ∧ k ≤ treeCost cf s T :=
+  table_lower_bound (dijkstra_accepted cf s hd) T hT
+
+/-- two accepted tables agree wherever both have an entry; so the implementation's `get_best_cost` can only equal the
+model's if it is the minimum -/
+theorem accepted_tables_agree {cf : CF} {s : Snap} {t t' : Table} (h : checkTable cf s t = true)
+    (h' : checkTable cf s t' = true) {c k k' : Nat} (hg : t.get c = some k) (hg' : t'.get c = some k') : k = k' := by
+  obtain ⟨⟨T, hT1, hT2, hT3⟩, hmin⟩ := table_is_min h hg
+  obtain ⟨⟨T', hT1', hT2', hT3'⟩, hmin'⟩ := table_is_min h' hg'
+  have := hmin T' hT1' hT2'
+  have := hmin' T hT1 hT2
+  omega
+
+/-- non-vacuity: the demo state has distinct class ids -/
+example : DistinctIds demo := by
+  unfold DistinctIds demo
+  simp
 
 end SV.C06
